@@ -40,6 +40,8 @@
 #define libxmp_virt_setpatch     real_virt_setpatch
 #define libxmp_virt_queuepatch   real_virt_queuepatch
 #define libxmp_virt_pastnote     real_virt_pastnote
+#define libxmp_virt_setnna       real_virt_setnna
+#define libxmp_virt_setsmp       real_virt_setsmp
 #include "virtual.c"
 #undef libxmp_virt_reset
 #undef libxmp_virt_resetvoice
@@ -48,6 +50,8 @@
 #undef libxmp_virt_setpatch
 #undef libxmp_virt_queuepatch
 #undef libxmp_virt_pastnote
+#undef libxmp_virt_setnna
+#undef libxmp_virt_setsmp
 
 void libxmp_load_prologue(struct context_data *);
 void libxmp_load_epilogue(struct context_data *);
@@ -158,11 +162,54 @@ static void after_vop(struct context_data *ctx, const char *op, int dumped)
 	}
 }
 
+/* all seven modelled voice fields: the expected line of the field-only operations (setnna, setsmp, queuepatch on a
+ * mapped channel, pastnote OFF/FADE) */
+static void dump_virt_full(const char *tag, struct context_data *ctx)
+{
+	struct player_data *p = &ctx->p;
+	int i;
+	printf("%s %d |", tag, p->virt.virt_used);
+	for (i = 0; i < p->virt.maxvoc; i++) {
+		struct mixer_voice *v = &p->virt.voice_array[i];
+		printf(" %d %d %d %d %d %d %d", v->chn, v->root, v->act, v->vol, v->ins, v->smp, v->key);
+	}
+	printf(" |");
+	for (i = 0; i < p->virt.virt_channels; i++)
+		printf(" %d %d", p->virt.virt_channel[i].map, p->virt.virt_channel[i].count);
+	printf("\n");
+}
+
+static long g_stat_fops, g_stat_fdump;
+static void after_vopf(struct context_data *ctx, const char *op, int dumped)
+{
+	const char *bad;
+	g_stat_fops++;
+	if (dumped) {
+		dump_virt_full("E vf", ctx);
+		g_stat_fdump++;
+	}
+	bad = check_vinv(ctx);
+	if (bad && !g_virt_fail_reported) {
+		g_virt_fail_reported = 1;
+		printf("O virt:%s after %s: %s\n", op, op, bad);
+	}
+}
+
 /* may this call be dumped?  only in a playing context with tables allocated */
 static int vdump_ok(struct context_data *ctx)
 {
 	return g_virt_dump_pct > 0 && ctx->p.virt.voice_array != NULL && ctx->p.virt.virt_channel != NULL &&
 	       ctx->p.virt.maxvoc <= 160 && vd_chance();
+}
+
+/* the field-only operations are rare: dump them six times as often */
+static int vdump_ok_field(struct context_data *ctx)
+{
+	int k, hit = 0;
+	for (k = 0; k < 6; k++)
+		hit |= vd_chance();
+	return g_virt_dump_pct > 0 && ctx->p.virt.voice_array != NULL && ctx->p.virt.virt_channel != NULL &&
+	       ctx->p.virt.maxvoc <= 160 && hit;
 }
 
 void libxmp_virt_reset(struct context_data *ctx)
@@ -280,19 +327,57 @@ int libxmp_virt_queuepatch(struct context_data *ctx, int chn, int ins, int smp, 
 		if (p->virt.virt_channel[chn].map <= -1 && s2 >= 0)
 			return spy_setpatch(ctx, chn, ins, smp, note, 0, 0, 0, 0, "queuepatch");
 	}
-	return real_virt_queuepatch(ctx, chn, ins, smp, note);
+	{
+		/* not a setpatch: the sample is queued in the mixer, at most the voice's instrument number changes */
+		int d = vdump_ok_field(ctx), r;
+		if (d) {
+			printf("D vopf queueins %d %d ", chn, ins);
+			dump_virt("|", ctx);
+		}
+		r = real_virt_queuepatch(ctx, chn, ins, smp, note);
+		after_vopf(ctx, "queuepatch", d);
+		return r;
+	}
 }
 
 void libxmp_virt_pastnote(struct context_data *ctx, int chn, int act)
 {
-	int d = (act == VIRT_ACTION_CUT) && vdump_ok(ctx);
+	int d = (act == VIRT_ACTION_CUT) ? vdump_ok(ctx) : vdump_ok_field(ctx);
 	if (d) {
-		printf("D vop pastnotecut %d ", chn);
+		if (act == VIRT_ACTION_CUT)
+			printf("D vop pastnotecut %d ", chn);
+		else
+			printf("D vopf pastnoteother %d %d ", chn, act);
 		dump_virt("|", ctx);
 	}
 	real_virt_pastnote(ctx, chn, act);
 	if (act == VIRT_ACTION_CUT)
 		after_vop(ctx, "pastnote", d);
+	else
+		after_vopf(ctx, "pastnote", d);
+}
+
+void libxmp_virt_setnna(struct context_data *ctx, int chn, int nna)
+{
+	struct module_data *m = &ctx->m;
+	int d = vdump_ok_field(ctx);
+	if (d) {
+		printf("D vopf setnna %d %d %d ", chn, nna, HAS_QUIRK(QUIRK_VIRTUAL) ? 1 : 0);
+		dump_virt("|", ctx);
+	}
+	real_virt_setnna(ctx, chn, nna);
+	after_vopf(ctx, "setnna", d);
+}
+
+void libxmp_virt_setsmp(struct context_data *ctx, int chn, int smp)
+{
+	int d = vdump_ok_field(ctx);
+	if (d) {
+		printf("D vopf setsmp %d %d ", chn, smp);
+		dump_virt("|", ctx);
+	}
+	real_virt_setsmp(ctx, chn, smp);
+	after_vopf(ctx, "setsmp", d);
 }
 
 /* ------------------------------------------------------------------ */
@@ -363,6 +448,45 @@ static void dump_module(struct context_data *ctx)
 	printf("\n");
 }
 
+/* OrdWF (Seq.ordWfB) evaluated in C on the live module, written from the clause (not from next_order):
+ * every sequence reaches an order holding a pattern through the restart position next_order would wrap it
+ * to, at its entry point, or walking forward from the entry point before the end of the list / an 0xff
+ * end marker.  The Lean driver evaluates its own definition on the dumped module; both must agree. */
+static long g_ow_rst, g_ow_entry, g_ow_reach, g_ow_fail;
+static int c_ordwf(struct context_data *ctx)
+{
+	struct module_data *m = &ctx->m;
+	struct xmp_module *mod = &m->mod;
+	struct player_data *p = &ctx->p;
+	int marker = HAS_QUIRK(QUIRK_MARKER) ? 1 : 0, s, all = 1;
+	for (s = 0; s < m->num_sequences; s++) {
+		int e = m->seq_data[s].entry_point, j, ok = 0;
+		if (mod->rst >= 0 && mod->rst < XMP_MAX_MOD_LENGTH && mod->rst <= mod->len && mod->xxo[mod->rst] < mod->pat &&
+		    p->sequence_control[mod->rst] == s) {
+			ok = 1;
+			g_ow_rst++;
+		} else if (e >= 0 && e < XMP_MAX_MOD_LENGTH && mod->xxo[e] < mod->pat) {
+			ok = 1;
+			g_ow_entry++;
+		} else {
+			for (j = e + 1; j >= 0 && j < mod->len && j < XMP_MAX_MOD_LENGTH; j++) {
+				if (marker && mod->xxo[j] == 0xff)
+					break;
+				if (mod->xxo[j] < mod->pat) {
+					ok = 1;
+					g_ow_reach++;
+					break;
+				}
+			}
+		}
+		if (!ok) {
+			all = 0;
+			g_ow_fail++;
+		}
+	}
+	return all;
+}
+
 /* what the real mixer makes of (rate, time factor, rrate, tempo, format): libxmp_mixer_get_ticksize,
  * libxmp_mixer_prepare and xmp_get_frame_info run on a scratch context (no constant of the cap is
  * repeated here) */
@@ -404,7 +528,8 @@ static void put_double(double x)
 /* ------------------------------------------------------------------ */
 static const int flow_fx[] = {
 	FX_JUMP, FX_BREAK, FX_IT_BREAK, FX_EXTENDED, FX_EXTENDED, FX_PATT_DELAY, FX_IT_ROWDELAY, FX_SPEED, FX_SPEED,
-	FX_S3M_SPEED, FX_S3M_BPM, FX_IT_BPM, FX_ICE_SPEED, FX_LINE_JUMP, FX_SPEED_CP, FX_ULT_TEMPO, FX_GLOBALVOL
+	FX_S3M_SPEED, FX_S3M_BPM, FX_IT_BPM, FX_ICE_SPEED, FX_LINE_JUMP, FX_SPEED_CP, FX_ULT_TEMPO, FX_GLOBALVOL,
+	FX_IT_INSTFUNC	/* S7x: past note cut/off/fade, set NNA (virtual.c pastnote / setnna) */
 };
 #define NFLOWFX ((int)(sizeof(flow_fx) / sizeof(flow_fx[0])))
 
@@ -424,6 +549,8 @@ static void gen_fx(int len, uint8 *fxt, uint8 *fxp)
 		static const int ex[] = { EX_PATTERN_LOOP, EX_PATT_DELAY, EX_PATTERN_LOOP, EX_DELAY };
 		pr = (ex[vrng_below(4)] << 4) | vrng_below(vrng_chance(50) ? 4 : 16);
 	}
+	if (t == FX_IT_INSTFUNC)
+		pr = vrng_below(8);
 	*fxt = (uint8)t;
 	*fxp = (uint8)pr;
 }
@@ -526,6 +653,8 @@ static int create_synth(struct context_data *ctx, char *desc, size_t dsz)
 					if (vrng_chance(60)) {
 						e->note = vrng_chance(92) ? vrng_range(30, 90) : XMP_KEY_OFF;
 						e->ins = vrng_chance(80) ? vrng_range(1, mod->ins) : 0;
+					} else if (vrng_chance(10)) {
+						e->ins = vrng_range(1, mod->ins);	/* instrument without note: Protracker sample swap (queuepatch) */
 					}
 					if (vrng_chance(20))
 						e->vol = vrng_range(1, 65);
@@ -794,6 +923,55 @@ static void monitor_effrange(const int *v, int frameno)
 	}
 }
 
+/* xmp_set_tempo_factor against Tick.setTempoFactor: acceptance at the current rate / rrate / tempo; an accepted
+ * factor is stored as 10*val, a refused one leaves m->time_factor alone (checked here, in C) */
+static long g_tf_acc, g_tf_ref;
+static int tempo_factor_logged(xmp_context c, struct context_data *ctx, double tf)
+{
+	double before = ctx->m.time_factor;
+	int r;
+	printf("D tfac %d", ctx->s.freq);
+	put_double(tf);
+	put_double(ctx->m.rrate);
+	printf(" %d\n", ctx->p.bpm);
+	r = xmp_set_tempo_factor(c, tf);
+	printf("E f %d\n", r == 0 ? 1 : 0);
+	if (r == 0 ? ctx->m.time_factor != tf * 10 : ctx->m.time_factor != before) {
+		printf("A tfac xmp_set_tempo_factor(%g) returned %d, time_factor %g -> %g\n", tf, r, before, ctx->m.time_factor);
+		g_assume++;
+	}
+	if (r == 0)
+		g_tf_acc++;
+	else
+		g_tf_ref++;
+	return r;
+}
+
+static int do_tempo_factor(xmp_context c, struct context_data *ctx, double tf)
+{
+	/* now and then a value that must be refused first (separate random stream: the case is not perturbed,
+	 * a refused call changes nothing) */
+	if (vd_chance() && vd_chance()) {
+		static const double badv[] = { 0.0, -2.5, -0.0, 1e300 };
+		tempo_factor_logged(c, ctx, badv[(g_vd_state >> 33) & 3]);
+	}
+	g_tfcalls++;
+	return tempo_factor_logged(c, ctx, tf);
+}
+
+/* watchdog: a frame that does not return (e.g. next_order spinning on an order list that violates OrdWF) becomes a
+ * replayable oracle failure at once instead of a shard time-out */
+#include <signal.h>
+#include <unistd.h>
+static volatile int g_wd_frame;
+static void on_alarm(int sig)
+{
+	(void)sig;
+	printf("O hang:xmp_play_frame frame %d: xmp_play_frame did not return within 20 s\nZ\n", g_wd_frame);
+	fflush(stdout);
+	_exit(0);
+}
+
 static int run_case(uint64_t cs, int nframes, const char *modname)
 {
 	xmp_context c;
@@ -846,7 +1024,7 @@ static int run_case(uint64_t cs, int nframes, const char *modname)
 	}
 	dump_module(ctx);
 	if (ctx->m.mod.len > 0)
-		printf("D wf\nE w ?\n");
+		printf("D wf\nE w ? %d\n", c_ordwf(ctx));
 	else
 		printf("N unplayable 1\n");	/* every order skipped: xmp_start_player set len = 0, no frame can succeed */
 	/* start-up correspondence */
@@ -871,9 +1049,8 @@ static int run_case(uint64_t cs, int nframes, const char *modname)
 	}
 	if (tf_mode <= 2) {
 		double tf = tfs[vrng_below(13)];
-		if (xmp_set_tempo_factor(c, tf) == 0)
+		if (do_tempo_factor(c, ctx, tf) == 0)
 			tf_called = 1;
-		g_tfcalls++;
 	}
 
 	for (i = 0; i < nframes; i++) {
@@ -896,9 +1073,8 @@ static int run_case(uint64_t cs, int nframes, const char *modname)
 			inject_pending = 1;
 		}
 		if (tf_mode == 2 && vrng_chance(2)) {
-			if (xmp_set_tempo_factor(c, tfs[vrng_below(13)]) == 0)
+			if (do_tempo_factor(c, ctx, tfs[vrng_below(13)]) == 0)
 				tf_called = 1;
-			g_tfcalls++;
 		}
 
 		/* a delayed event (EDx) pending on any channel may be read by play_channel after the ST2.6 step */
@@ -912,7 +1088,11 @@ static int run_case(uint64_t cs, int nframes, const char *modname)
 		get_state(ctx, pre);
 		g_in_frame = 1;
 		g_mid_taken = 0;
+		g_wd_frame = i;
+		signal(SIGALRM, on_alarm);
+		alarm(20);
 		ret = xmp_play_frame(c);
+		alarm(0);
 		g_in_frame = 0;
 		get_state(ctx, post);
 
@@ -983,9 +1163,11 @@ static int run_case(uint64_t cs, int nframes, const char *modname)
 static void print_stats(void)
 {
 	printf("N frames %ld\nN ends %ld\nN ctl %ld\nN inject %ld\nN repos %ld\nN rowadv %ld\nN ordadv %ld\nN loopinc %ld\n"
-	       "N tfcalls %ld\nN capped %ld\nN minclamp %ld\nN st26 %ld\nN assume %ld\nN vops %ld\nN vdump %ld\nN reloc %ld\nN vfail %ld\nN steal %ld\n",
+	       "N tfcalls %ld\nN capped %ld\nN minclamp %ld\nN st26 %ld\nN assume %ld\nN vops %ld\nN vdump %ld\nN reloc %ld\nN vfail %ld\nN steal %ld\n"
+	       "N ordwf_seq_rst %ld\nN ordwf_seq_entry %ld\nN ordwf_seq_reach %ld\nN ordwf_seq_fail %ld\nN tf_accepted %ld\nN tf_refused %ld\nN vfieldops %ld\nN vfielddump %ld\n",
 	       g_frames, g_ends, g_ctl, g_inject, g_repos, g_rowadv, g_ordadv, g_loopinc, g_tfcalls, g_capped, g_minclamp,
-	       g_st26, g_assume, g_stat_vops, g_stat_vdump, g_stat_reloc, g_stat_vfail, g_stat_steal);
+	       g_st26, g_assume, g_stat_vops, g_stat_vdump, g_stat_reloc, g_stat_vfail, g_stat_steal, g_ow_rst, g_ow_entry,
+	       g_ow_reach, g_ow_fail, g_tf_acc, g_tf_ref, g_stat_fops, g_stat_fdump);
 }
 
 int main(int argc, char **argv)
